@@ -327,6 +327,29 @@ class CallsMixin:
 
     n_asanyarray = n_asarray
 
+    def n_packbits(self, pos, kw, node, env):
+        a = self.as_arr(pos[0]) if pos else ARR(None)
+        axv = self.kwarg(pos, kw, 1, 'axis')
+        ax = self.axis_val(axv)
+        if a.dims is None:
+            return ARR(None, 'i', note='bytes')
+        if ax is None:
+            tot = ONE
+            for d_ in a.dims:
+                tot = tot * d_ if (tot is not None and d_ is not None) \
+                    else None
+            from .npmodel import _ceildiv
+            return ARR((None if tot is None else _ceildiv(tot, 8),), 'i',
+                       note='bytes', idx=0)
+        if ax == 'unknown' or not (-len(a.dims) <= ax < len(a.dims)):
+            return ARR(None, 'i', note='bytes')
+        ax %= len(a.dims)
+        from .npmodel import _ceildiv
+        dims = list(a.dims)
+        dims[ax] = None if dims[ax] is None else _ceildiv(dims[ax], 8)
+        # note 'bytes': each entry holds 8 bits; idx = the packed axis
+        return ARR(tuple(dims), 'i', note='bytes', idx=ax)
+
     def n_atleast_2d(self, pos, kw, node, env):
         a = self.as_arr(pos[0]) if pos else ARR(None)
         if a.dims is None:
